@@ -304,6 +304,19 @@ def run(check, an: Analysis):
     an.cls(LOOP)
 
     # ---- L1 -----------------------------------------------------------------
+    check_clock_writers(check, an, 'L1')
+    check.floor('L1', 2)
+    # no other object masquerades as the loop's clock source: `time.now` reads loop.time
+    now = an.method(TIME, 'now')
+    returns = [n for n in ast.walk(now.node) if isinstance(n, ast.Return)]
+    check.instance('L1', 'time.now', len(returns) == 1 and rules.is_current_time(
+        returns[0].value, now), where_fn(now), '`time.now` is the loop clock')
+    _run_rest(check, an)
+
+
+def check_clock_writers(check, an: Analysis, rule: str):
+    """the clock holds the start time exactly as given, then the keys popped from the
+    queue exactly as queued: nothing rounds, converts or advances it"""
     for fn, stmt, target, recvs in rules.attribute_stores(an, 'time', LOOP):
         where = '%s:%d' % (fn.module.relpath, stmt.lineno)
         ok = rules.owned_by(an, fn, LOOP) and fn.name in ('__init__',
@@ -318,14 +331,10 @@ def run(check, an: Analysis):
             value = stmt.value if isinstance(stmt, ast.Assign) else None
             ok = isinstance(value, ast.Name) and rules._is_param(fn, value.id)
             detail += ': the start time parameter'
-        check.instance('L1', 'clock-writer:%s' % short(fn.qn), ok, where, detail)
-    check.floor('L1', 2)
-    # no other object masquerades as the loop's clock source: `time.now` reads loop.time
-    now = an.method(TIME, 'now')
-    returns = [n for n in ast.walk(now.node) if isinstance(n, ast.Return)]
-    check.instance('L1', 'time.now', len(returns) == 1 and rules.is_current_time(
-        returns[0].value, now), where_fn(now), '`time.now` is the loop clock')
+        check.instance(rule, 'clock-writer:%s' % short(fn.qn), ok, where, detail)
 
+
+def _run_rest(check, an: Analysis):
     # ---- L2 -----------------------------------------------------------------
     _check_waitqueues(check, an)
 
@@ -960,6 +969,32 @@ def _constructor_sites(an: Analysis, cls_qn: str):
 
 
 def _check_plumbing(check, an: Analysis):
+    check_schedule_keys(check, an, 'L5')
+    _check_plumbing_sites(check, an)
+
+
+def check_time_operators(check, an: Analysis, rule: str):
+    """`time >= d`, `time == d`, `time < d` build the matching condition object with the
+    operand passed through, whatever the clock reads when the expression is written (an
+    object that answers for the date later on, not a constant for the answer now)"""
+    for name, cls in (('__ge__', 'After'), ('__eq__', 'Moment'), ('__lt__', 'Before')):
+        method = an.method(TIME, name)
+        param = method.node.args.args[1].arg
+        forms = set()
+        for path in an.paths(an.callee(TIME, name)):
+            if path.kind == 'return':
+                forms.add(rules.value_text(path, len(path.events), path.outcome[1])
+                          if path.outcome[1] is not None else 'None')
+        check.instance(rule, 'Time.%s' % name, forms == {'%s(%s)' % (cls, param)},
+                       where_fn(method), 'time %s date  ->  %s(date) on every path: %s' % (
+                           {'__ge__': '>=', '__eq__': '==', '__lt__': '<'}[name], cls,
+                           sorted(forms)))
+
+
+def check_schedule_keys(check, an: Analysis, rule: str):
+    """the bucket an activation is queued in: `time + delay` for a delay and the date
+    *itself* for a date (no arithmetic on it: `time + (at - time)` is another float, and
+    wake-ups for one date asked for at different times would land in different buckets)"""
     schedule = an.method(LOOP, 'schedule')
     # schedule: key == time + delay / at, matching the argument that was given
     kinds = {}
@@ -977,9 +1012,13 @@ def _check_plumbing(check, an: Analysis):
                     kinds['at'] = kinds.get('at', True) and by_at
                 else:
                     kinds['other:%s' % key] = False
-    check.instance('L5', 'Loop.schedule:keys', kinds == {'delay': True, 'at': True},
+    check.instance(rule, 'Loop.schedule:keys', kinds == {'delay': True, 'at': True},
                    where_fn(schedule), 'activations are queued under `time + delay` when a '
-                   'delay is given and under `at` when a date is given: %s' % kinds)
+                   'delay is given and under `at` (the date as given) when a date is given: '
+                   '%s' % kinds)
+
+
+def _check_plumbing_sites(check, an: Analysis):
     # every dated hand-over to the loop forwards what it was given (discovered sites)
     for fn, call, frame in rules.call_sites_of(an, an.method(LOOP, 'schedule').qn):
         dated = [kw for kw in call.keywords if kw.arg in ('delay', 'at')]
@@ -1051,15 +1090,7 @@ def _check_plumbing(check, an: Analysis):
                    ok and undated == {'after': {True, False}, 'at': {True, False}},
                    where_fn(do.fn),
                    '`after == 0` and `at == now` are turned into an undated start')
-    # Time operators build the matching condition with the operand passed through
-    for name, cls in (('__ge__', 'After'), ('__eq__', 'Moment'), ('__lt__', 'Before')):
-        method = an.method(TIME, name)
-        returns = [n for n in ast.walk(method.node) if isinstance(n, ast.Return)]
-        param = method.node.args.args[1].arg
-        ok = len(returns) == 1 and ast.unparse(returns[0].value) == '%s(%s)' % (cls, param)
-        check.instance('L5', 'Time.%s' % name, ok, where_fn(method),
-                       'time %s date  ->  %s(date)' % (
-                           {'__ge__': '>=', '__eq__': '==', '__lt__': '<'}[name], cls))
+    check_time_operators(check, an, 'L5')
     add = an.callee(TIME, '__add__')
     param = add.fn.node.args.args[1].arg
     for path in an.paths(add):
